@@ -2317,6 +2317,142 @@ impl BitvectorDomain {
         }
     }
 }
+// ======== include lemmas/bitvector_sat.rs ========
+// ---------------------------------------------------------------------------
+// lemmas/bitvector_sat.rs -- SATISFIABILITY WITNESSES of the preconditions of unit `bitvector`
+// (nothing here is trusted: no external_body / assume / admit / axiom).  Kept tiny: every other unit compiles this file.
+//   (b)  lemma_sat_bitvector_wellsized: EVERY BinOpType / UnOpType / CastOpType value has well-sized operands
+//        (`forall |op| exists |a, b| wellsized_bin(op, a, b)`, likewise un / cast with the size clause of `cast`);
+//        uniform witnesses: 8 bit values 5, 3 / 1 and target size 2 bytes.
+//   (b)  lemma_sat_bitvector_assume_entry: the two logged ASSUMPTIONS of the BitWidth <-> ByteSize conversions
+//        (`@assume_entry`) are satisfiable, and are IMPLIED by the size bounds the contracts use (MAXBYTES, MAXW):
+//        they never cut off an input that a contract of this unit admits.
+//   (b)  lemma_sat_bitvector_shim_ctors: the unguarded TRUSTED apint contracts (constructors: `r == bv(..), r.wf()` for ALL
+//        arguments) state a well-formed value, i.e. their two ensures conjuncts cannot clash.
+//   (a') verif_sat_bitvector_chain: exec client WITHOUT requires; builds 8, 64 and 128 bit values (Bitvector::from_u8 /
+//        from_u64 / from_u128, struct literals) and calls every contracted function of the unit, the operation
+//        parameters `bop / uop / kind` left ARBITRARY: Verus checks the REAL requires at each call for every operation.
+//        (`BitvectorDomain::merge_with` @optional override is absent from /repo; the trait default that is verified
+//        in its place has the same requires and is called.)
+//   nothing conditional, no (d) hypothesis in this unit.
+// ---------------------------------------------------------------------------
+
+pub open spec fn bvsat_bin_has_operands(op: BinOpType) -> bool { exists |a: Bitvector, b: Bitvector| wellsized_bin(op, a, b) }
+pub open spec fn bvsat_un_has_operand(op: UnOpType) -> bool { exists |a: Bitvector| wellsized_un(op, a) }
+/// the requires of Bitvector::cast, verbatim (`*self` -> `a`)
+pub open spec fn bvsat_cast_pre(kind: CastOpType, a: Bitvector, width: ByteSize) -> bool {
+    1 <= width.0 <= MAXBYTES() && wellsized_cast(kind, a, (width.0 * 8) as nat)
+}
+pub open spec fn bvsat_cast_has_operand(kind: CastOpType) -> bool { exists |a: Bitvector, width: ByteSize| bvsat_cast_pre(kind, a, width) }
+
+/// (b) requires of Bitvector::bin_op / un_op / cast (and of the guarded clauses of BitvectorDomain::bin_op / un_op / cast)
+pub proof fn lemma_sat_bitvector_wellsized()
+    ensures
+        forall |op: BinOpType| #[trigger] bvsat_bin_has_operands(op),
+        forall |op: UnOpType| #[trigger] bvsat_un_has_operand(op),
+        forall |kind: CastOpType| #[trigger] bvsat_cast_has_operand(kind),
+{
+    lemma_p2_consts();
+    assert forall |op: BinOpType| #[trigger] bvsat_bin_has_operands(op) by { assert(wellsized_bin(op, bv(8, 5), bv(8, 3))); }
+    assert forall |op: UnOpType| #[trigger] bvsat_un_has_operand(op) by { assert(wellsized_un(op, bv(8, 1))); }
+    assert forall |kind: CastOpType| #[trigger] bvsat_cast_has_operand(kind) by {
+        assert(bvsat_cast_pre(kind, bv(8, 5), ByteSize(2)));
+    }
+}
+
+/// (b) `@assume_entry bytesize.0 <= 0x200_0000` (From<ByteSize> for BitWidth), `@assume_entry bitwidth.n <= 0x1000_0000`
+/// (From<BitWidth> for ByteSize)
+pub proof fn lemma_sat_bitvector_assume_entry()
+    ensures
+        exists |bytesize: ByteSize| 1 <= #[trigger] bytesize.0 && bytesize.0 <= 0x200_0000,
+        exists |bitwidth: BitWidth| 1 <= #[trigger] bitwidth.n && bitwidth.n <= 0x1000_0000,
+        forall |bytesize: ByteSize| #[trigger] bytesize.0 <= MAXBYTES() ==> bytesize.0 <= 0x200_0000,
+        forall |bitwidth: BitWidth| #[trigger] bitwidth.n <= MAXW() ==> bitwidth.n <= 0x1000_0000,
+{
+    assert(ByteSize(8).0 == 8);
+    assert((BitWidth { n: 64 }).n == 64);
+}
+
+/// (b) the only TRUSTED contracts of shim/apint.rs that hold for ALL arguments (no `requires`): the constructors
+/// `from_u8 .. from_i128` / `From<u8>` / `From<u64>` (`ensures r == bv(W, ..), r.wf()`) and, under their range requires
+/// on the width, `zero / one / unsigned_max_value / signed_min_value / signed_max_value`: the two ensures conjuncts
+/// agree (the stated value IS well-formed), for every argument
+pub proof fn lemma_sat_bitvector_shim_ctors()
+    ensures
+        forall |v: u8| #[trigger] bv(8, v as nat).wf(),
+        forall |v: u16| #[trigger] bv(16, v as nat).wf(),
+        forall |v: u32| #[trigger] bv(32, v as nat).wf(),
+        forall |v: u64| #[trigger] bv(64, v as nat).wf(),
+        forall |v: u128| #[trigger] bv(128, v as nat).wf(),
+        forall |w: nat, x: int| 1 <= w <= MAXW() ==> #[trigger] bv(w, trunc(w, x)).wf(),
+        forall |n: nat| 1 <= n <= MAXW() ==> #[trigger] bv(n, 0).wf() && bv(n, 1).wf() && bv(n, (p2(n) - 1) as nat).wf()
+            && bv(n, p2((n - 1) as nat)).wf() && bv(n, (p2((n - 1) as nat) - 1) as nat).wf(),
+{
+    lemma_p2_consts();
+    assert forall |w: nat, x: int| 1 <= w <= MAXW() implies #[trigger] bv(w, trunc(w, x)).wf() by { lemma_trunc_range(w, x); }
+    assert forall |n: nat| 1 <= n <= MAXW() implies #[trigger] bv(n, 0).wf() && bv(n, 1).wf() && bv(n, (p2(n) - 1) as nat).wf()
+            && bv(n, p2((n - 1) as nat)).wf() && bv(n, (p2((n - 1) as nat) - 1) as nat).wf() by {
+        lemma_p2(n); lemma_p2((n - 1) as nat);
+    }
+}
+
+/// (a') every contracted function of the unit is called once or twice; no precondition
+pub fn verif_sat_bitvector_chain(bop: BinOpType, uop: UnOpType, kind: CastOpType)
+{
+    proof { lemma_p2_consts(); }
+    let a = Bitvector::from_u8(5);
+    let b = Bitvector::from_u8(3);
+    let one = Bitvector::from_u8(1);
+    let q = Bitvector::from_u64(0xffff_ffff_ffff_fff0);
+    let h = Bitvector::from_u128(7);
+    // ByteSize::as_bit_length: self.0 <= MAXBYTES;  the two conversions: their assumption holds for the arguments
+    let two = ByteSize::new(2);
+    let _ = two.as_bit_length();
+    let bw = BitWidth::from(two);
+    let _ = ByteSize::from(bw);
+    // resize / bytesize / subpiece: wf, 1 <= size <= MAXBYTES, low_byte * 8 < w, 1 <= size, size * 8 <= w
+    let _ = a.into_resize_unsigned(two);
+    let _ = q.into_resize_signed(ByteSize(1));
+    let _ = q.bytesize();
+    let _ = q.subpiece(ByteSize(1), ByteSize(2));
+    // cast / un_op / bin_op for EVERY operation: wellsized_cast / wellsized_un / wellsized_bin
+    let _ = a.cast(kind, two);
+    let _ = one.un_op(uop);
+    let _ = a.bin_op(bop, &b);
+    let _ = q.bin_op(bop, &q);
+    // overflow helpers: equal widths (8, 64 bit; above 64 bit for the Err case of the multiplication)
+    let _ = a.signed_add_overflow_checked(&b);
+    let _ = q.signed_sub_overflow_checked(&q);
+    let _ = a.signed_mult_with_overflow_flag(&b);
+    let _ = h.signed_mult_with_overflow_flag(&h);
+    // Expression::bytesize: expr_ok, expr_bytes <= u64::MAX
+    let e = Expression::BinOp { op: bop, lhs: Box::new(Expression::Const(a)), rhs: Box::new(Expression::Const(q)) };
+    proof { reveal_with_fuel(expr_ok, 3); reveal_with_fuel(expr_bytes, 3); }
+    let _ = e.bytesize();
+    // BitvectorDomain: wf, bytes sum <= MAXBYTES, the GUARDED clauses active (both Value) and inactive (Top)
+    let va = BitvectorDomain::Value(a);
+    let vb = BitvectorDomain::Value(b);
+    let v1 = BitvectorDomain::Value(one);
+    let vq = BitvectorDomain::Value(q);
+    let top = BitvectorDomain::new_top(ByteSize(1));
+    let _ = va.bytesize();
+    let _ = top.bytesize();
+    let _ = va.top();
+    let _ = va.is_top();
+    let _ = va.merge(&vb);
+    let _ = va.merge(&top);
+    let mut m = BitvectorDomain::Value(a);
+    let _ = m.merge_with(&vb);
+    let _ = va.bin_op_bytesize(bop, &vb);
+    let _ = va.bin_op(bop, &vb);
+    let _ = top.bin_op(bop, &vb);
+    let _ = v1.un_op(uop);
+    let _ = top.un_op(uop);
+    let _ = vq.subpiece(ByteSize(1), ByteSize(2));
+    let _ = top.subpiece(ByteSize(1), ByteSize(2));
+    let _ = va.cast(kind, two);
+    let _ = top.cast(kind, two);
+}
 
 } // verus!
 fn main() {}
